@@ -135,6 +135,9 @@ func cmdCheck(args []string) {
 		if spec == nil || spec.Inline || spec.Trusted {
 			continue
 		}
+		if spec.ThoroughOnly && *tier != "thorough" {
+			continue
+		}
 		if hasProp(spec.Props, *prop) {
 			role[k] = "tagged"
 			work = append(work, k)
@@ -188,6 +191,10 @@ func cmdCheck(args []string) {
 			cs := e.specFor(e.funcs[callee])
 			if cs != nil && cs.Trusted {
 				trusted[callee] = true
+				continue
+			}
+			if cs != nil && cs.ThoroughOnly && *tier != "thorough" {
+				trusted[callee+" (assumed in the quick tier; verified in the thorough tier)"] = true
 				continue
 			}
 			if cur, seen := role[callee]; !seen {
@@ -253,6 +260,10 @@ func cmdCheck(args []string) {
 			}
 			spec := e.specFor(e.funcs[k])
 			if spec == nil || spec.Inline || spec.Trusted {
+				continue
+			}
+			if spec.ThoroughOnly && *tier != "thorough" {
+				trusted[k+" (assumed in the quick tier; verified in the thorough tier)"] = true
 				continue
 			}
 			role[k] = "invariant-provider"
